@@ -24,6 +24,8 @@ pub struct RtSpec<'a> {
     /// the property promises success on this input (false: an error is a legal outcome)
     pub ser_must_succeed: bool,
     pub doc_check: Option<&'a dyn Fn(&[u8]) -> Result<(), Violation>>,
+    /// refines the oracle id of a round-trip mismatch (want, got) -> suffix
+    pub classify: Option<&'a dyn Fn(&BTreeSet<MQuad>, &BTreeSet<MQuad>) -> Option<&'static str>>,
     pub hash_seed: u64,
 }
 
@@ -123,6 +125,7 @@ pub fn check_noisy_write(
     res: &SerResult,
     w: &SimWriter,
     doc: &[u8],
+    same_meaning: Option<&dyn Fn(&[u8]) -> bool>,
 ) -> Verdict {
     let (accepted, hard, on_flush, calls, fault_id) = w.with(|s| {
         (
@@ -143,6 +146,7 @@ pub fn check_noisy_write(
     );
     if hard {
         ctx.sig(if on_flush { "w:flush_error" } else { "w:write_error" });
+        ctx.sig_u((accepted.len() * 4 / doc.len().max(1)) as u64);
         match res {
             SerResult::Ok => {
                 return Err(Violation::new(
@@ -161,8 +165,11 @@ pub fn check_noisy_write(
                 ));
             }
             SerResult::Sink(e) => {
+                if !chain_has_fault(e.as_ref(), fault_id) && debug_shows_fault(e.as_ref(), fault_id) {
+                    ctx.probe("fault_identity_visible_only_in_debug");
+                }
                 ensure!(
-                    chain_has_fault(e.as_ref(), fault_id),
+                    chain_has_fault(e.as_ref(), fault_id) || debug_shows_fault(e.as_ref(), fault_id),
                     format!("write_error_identity/{fam}"),
                     "{fname}: SinkError does not carry the injected fault #{fault_id}: {e:?}"
                 );
@@ -185,7 +192,14 @@ pub fn check_noisy_write(
                 ));
             }
         }
-        if accepted != doc {
+        if accepted != doc
+            && accepted.len() == doc.len()
+            && same_meaning.is_some_and(|f| f(&accepted))
+        {
+            // a hash-order-sensitive serializer emitted the same content in another order
+            // (residual RandomState drift inside a dependency); not a property violation
+            ctx.probe("order_only_difference_tolerated");
+        } else if accepted != doc {
             let oracle = if is_prefix(&accepted, doc) {
                 "ack_lost"
             } else {
@@ -216,6 +230,7 @@ pub fn check_noisy_read(
     h: &RHandle,
     plan: &RPlan,
     doc: &[u8],
+    order_insensitive: bool,
 ) -> Verdict {
     let (hard, calls) = h.with(|s| (s.hard_fired, s.calls));
     h.absorb(ctx, plan.fail_at.is_some());
@@ -228,6 +243,7 @@ pub fn check_noisy_read(
     );
     if hard {
         ctx.sig("r:read_error");
+        ctx.sig_u((plan.fail_at.unwrap_or(0) * 4 / doc.len().max(1)) as u64);
         match &p1.result {
             Ok(()) => {
                 return Err(Violation::new(
@@ -248,8 +264,11 @@ pub fn check_noisy_read(
                 ));
             }
             Err(ParseFail::Source(e)) => {
+                if !chain_has_fault(e.as_ref(), plan.fault_id) && debug_shows_fault(e.as_ref(), plan.fault_id) {
+                    ctx.probe("fault_identity_visible_only_in_debug");
+                }
                 ensure!(
-                    chain_has_fault(e.as_ref(), plan.fault_id),
+                    chain_has_fault(e.as_ref(), plan.fault_id) || debug_shows_fault(e.as_ref(), plan.fault_id),
                     format!("read_error_identity/{fam}"),
                     "{fname}: SourceError does not carry the injected fault #{}: {e:?}",
                     plan.fault_id
@@ -257,14 +276,23 @@ pub fn check_noisy_read(
             }
         }
         ensure!(
-            p1.items.len() <= p0.items.len() && p1.items[..] == p0.items[..p1.items.len()],
+            order_insensitive
+                || (p1.items.len() <= p0.items.len() && p1.items[..] == p0.items[..p1.items.len()]),
             format!("read_error_not_prefix/{fam}"),
             "{fname}: items delivered before the read fault are not a prefix of the fault-free delivery"
         );
     } else {
         let same_verdict = p0.result.is_ok() == p1.result.is_ok();
+        let same_items = p0.items == p1.items
+            || (order_insensitive
+                && p0.items.len() == p1.items.len()
+                && isomorphic(
+                    &p0.items.iter().cloned().collect(),
+                    &p1.items.iter().cloned().collect(),
+                )
+                .is_yes());
         ensure!(
-            same_verdict && p0.items == p1.items,
+            same_verdict && same_items,
             format!("read_noise_changes_result/{fam}"),
             "{fname}: chunked / interrupted delivery (max_chunk={}, noise={:?}) changed the parse: {} items ok={} vs {} items ok={} one-shot{}\ndoc: {}",
             plan.max_chunk,
@@ -287,6 +315,10 @@ pub fn run_roundtrip(ctx: &mut Ctx, spec: &RtSpec<'_>) -> Verdict {
     let hs = spec.hash_seed;
     ctx.sig(&fname);
     ctx.ops += spec.input.len() as u64;
+    for q in spec.input {
+        let k = |t: &MTerm| t.kind() as u64 + 1;
+        ctx.sig_u(k(&q.0[0]) | k(&q.0[1]) << 4 | k(&q.0[2]) << 8 | q.1.as_ref().map_or(0, k) << 12);
+    }
     ctx.sample(|| format!("format {fname}; input:\n{}", fmt_quads(spec.input)));
 
     // 1. the fault-free twin
@@ -355,8 +387,13 @@ pub fn run_roundtrip(ctx: &mut Ctx, spec: &RtSpec<'_>) -> Verdict {
         }
         Expect::Iso(want) => {
             if let Iso::No(why) = isomorphic(want, &got) {
+                let suffix = spec
+                    .classify
+                    .and_then(|c| c(want, &got))
+                    .map(|s| format!("/{s}"))
+                    .unwrap_or_default();
                 return Err(Violation::new(
-                    format!("roundtrip_mismatch/{fam}"),
+                    format!("roundtrip_mismatch/{fam}{suffix}"),
                     format!(
                         "{fname}: parse(serialize(D)) is not isomorphic to D ({why})\nexpected:\n{}got:\n{}document:\n{}",
                         fmt_quads(want),
@@ -378,7 +415,21 @@ pub fn run_roundtrip(ctx: &mut Ctx, spec: &RtSpec<'_>) -> Verdict {
         ctx.sample(|| format!("writer plan: noise={:?} fail_at={:?} fail_flush={}", wplan.noise.codes, wplan.fail_at, wplan.fail_flush));
         let w1 = SimWriter::new(wplan);
         let r1 = do_ser(fmt, hs, spec.input, w1.handle());
-        check_noisy_write(ctx, &fam, &fname, &r1, &w1, &doc)?;
+        let p0set: BTreeSet<MQuad> = p0.items.iter().cloned().collect();
+        let same = |bytes: &[u8]| -> bool {
+            let p = do_parse(fmt, hs, SimReader::perfect(bytes.to_vec()));
+            p.result.is_ok()
+                && isomorphic(&p0set, &p.items.iter().cloned().collect()).is_yes()
+        };
+        check_noisy_write(
+            ctx,
+            &fam,
+            &fname,
+            &r1,
+            &w1,
+            &doc,
+            if fmt.hash_sensitive() { Some(&same) } else { None },
+        )?;
     }
 
     // 4. noisy / faulty reader
@@ -389,7 +440,7 @@ pub fn run_roundtrip(ctx: &mut Ctx, spec: &RtSpec<'_>) -> Verdict {
         let rd = SimReader::new(doc.clone(), rplan.clone());
         let h = rd.handle();
         let p1 = do_parse(fmt, hs, rd);
-        check_noisy_read(ctx, &fam, &fname, &p0, &p1, &h, &rplan, &doc)?;
+        check_noisy_read(ctx, &fam, &fname, &p0, &p1, &h, &rplan, &doc, fmt.hash_sensitive())?;
     }
     Ok(())
 }
